@@ -22,6 +22,7 @@ import subprocess
 import common as C
 import gomod
 import k4
+import conccorr
 
 LEVEL = "proof"
 
@@ -382,6 +383,19 @@ def check(ctx, build=None):
                 if len(samples) < 2 and (len(gl) > 1 or tname == "t_cond"):
                     samples.append({"template": tname, "go_outcomes": dict(go), "gooselang_outcomes": gl, "states": states})
             shutil.rmtree(root, ignore_errors=True)
+        # ---- the model of the translation of go / mutex / wait group / condition variable statements (Model/Conc.lean) against the real
+        #      translator: emitted tree == model's tree; all-schedule outcomes of the model's Go semantics == strict exploration of the emitted
+        #      text ⊆ Perennial-reading exploration; native outcomes among them
+        for ts in range(ctx.seed * 30 + 700, ctx.seed * 30 + 700 + (1 if ctx.tier == "quick" else 12)):
+            st, bad = conccorr.run(ts, 12, scratch)
+            for k, v in st.items():
+                if isinstance(v, int):
+                    stats["conc_" + k] += v
+            if bad and not any(b["name"].startswith("conc:") for b in build.broken):
+                build.broken.append({"kind": "correspondence", "name": "conc: Model.Conc.tr / its semantics vs the tree goose emits / the explorer on the emitted text / native Go", "detail": json.dumps(bad, default=str)[:2500]})
+                if ("native Go produces" in bad["what"] or "EMITTED text" in bad["what"]) and not found:
+                    viol("C03 (conc model stream): " + bad["what"], {"proto": "conc", "seed": ts, "function": bad.get("function"), "go_source": bad.get("go"), "tokens": bad.get("tokens")},
+                         {k: bad[k] for k in bad if k.startswith("model")}, {k: bad[k] for k in bad if k in ("native", "strict", "perennial", "interpreter_strict", "interpreter_perennial", "emitted")})
     finally:
         shutil.rmtree(scratch, ignore_errors=True)
     C.report_broken_obligations(ctx, build, found)
